@@ -34,8 +34,12 @@ type Connection struct {
 	// Rooms this connection has joined
 	rooms map[string]bool
 
-	// Mutex for protecting rooms
+	// Mutex for protecting rooms and disconnected
 	roomsMu sync.RWMutex
+
+	// disconnected is set by the hub when it drops the connection; from then
+	// on the connection joins no room.
+	disconnected bool
 
 	// Path parameters extracted from the WebSocket route pattern (e.g., :room from /chat/:room)
 	PathParams map[string]string
@@ -300,25 +304,43 @@ func (c *Connection) GetData(key string) (interface{}, bool) {
 
 // JoinRoom adds this connection to a room
 func (c *Connection) JoinRoom(roomName string) {
+	// The connection's own view and the room's membership change together,
+	// under roomsMu, so that they cannot disagree and so that a join cannot
+	// slip in after the hub has dropped the connection.
 	c.roomsMu.Lock()
-	c.rooms[roomName] = true
-	c.roomsMu.Unlock()
+	defer c.roomsMu.Unlock()
+
+	if c.disconnected {
+		log.Printf("[WS] Connection %s is disconnected, not joining room %s", c.ID, roomName)
+		return
+	}
 
 	// Add to room manager synchronously to ensure the room exists
 	// before any subsequent operations (like broadcast_to_room)
 	rm := c.hub.GetRoomManager()
 	if err := rm.AddConnectionToRoom(c, roomName); err != nil {
 		log.Printf("[WS] Failed to join room %s: %v", roomName, err)
-	} else {
-		log.Printf("[WS] Connection %s joined room %s", c.ID, roomName)
+		return
 	}
+	c.rooms[roomName] = true
+	log.Printf("[WS] Connection %s joined room %s", c.ID, roomName)
+}
+
+// markDisconnected empties the connection's own view of its rooms and makes
+// later JoinRoom calls no-ops. The hub calls it when it drops the connection,
+// before it removes the connection from the rooms and closes its send queue.
+func (c *Connection) markDisconnected() {
+	c.roomsMu.Lock()
+	c.disconnected = true
+	c.rooms = make(map[string]bool)
+	c.roomsMu.Unlock()
 }
 
 // LeaveRoom removes this connection from a room
 func (c *Connection) LeaveRoom(roomName string) {
 	c.roomsMu.Lock()
+	defer c.roomsMu.Unlock()
 	delete(c.rooms, roomName)
-	c.roomsMu.Unlock()
 
 	// Remove from room manager synchronously
 	rm := c.hub.GetRoomManager()
